@@ -2,7 +2,7 @@
   Driver/CartesianCmd.lean — commands over the cartesian model (Model/Cartesian.lean).
 
   A diagram request is   <dom> <cod> <nb> (<prim> <bdom> <bcod>)^nb <no> <off>^no <nv> <val>^nv
-    prim  : add | swap | copy | discard | scale:K | aff:M:N:S:B | proj:M:I | pack:M | nest:M | fail
+    prim  : add | swap | copy | discard | scale:K | aff:M:N:S:B | proj:M:I | pack:M | nest:M | ident:M | fail
     val   : INT | ( val , ... )          no spaces; `()` empty tuple, `(7)` the 1-tuple
   Commands
     ccall <diagram request>     public constructor, then d(*vals)       -> ok <val> | err <class>
@@ -94,6 +94,10 @@ def prim : P Prim := do
   | ["pack", m] =>
     match m.toNat? with
     | some m => pure (.pack m)
+    | none => throw s!"bad prim {t}"
+  | ["ident", m] =>
+    match m.toNat? with
+    | some m => pure (.ident m)
     | none => throw s!"bad prim {t}"
   | ["nest", m] =>
     match m.toNat? with
